@@ -613,6 +613,7 @@ def m_unpack(I, args, kw):
     t = z3.IntVal(0)
     for e in els:
         t = t * 256 + (z3.IntVal(e) if isinstance(e, int) else e)
+    remember_digits(I, lower_int(t), els)
     if signed:
         t = z3.If(t >= (1 << (8 * size - 1)), t - (1 << (8 * size)), t)
     for e in els:
@@ -808,7 +809,7 @@ def native_method_call(I, name, recv, args, kw):
                                 raise OutOfFragment("encode of non-ASCII text")
                         else:
                             conj.append(e < 128)
-                else:
+                elif s.bound[1] > 127:
                     raise OutOfFragment("encode of symbolic-length text")
             if conj:
                 ok = z3.And(*conj) if len(conj) > 1 else conj[0]
@@ -831,7 +832,7 @@ def native_method_call(I, name, recv, args, kw):
                                 raise OutOfFragment("decode of concrete non-ASCII bytes")
                         else:
                             conj.append(e < 128)
-                else:
+                elif s.bound[1] > 127:
                     raise OutOfFragment("decode of symbolic-length bytes")
             if conj:
                 ok = z3.And(*conj) if len(conj) > 1 else conj[0]
